@@ -3,6 +3,9 @@ from engine.anl.casts import narrowing_casts, check_cast
 from engine.anl.origin import fmt, subterms, strip_bb
 from .common import calls_norm, is_call_term, var_name, render_path
 
+from engine.anl.casts import const_value as const_value_
+from .common import render_path as render_path
+
 EXPLANATION = (
     "Static decision of the codec's shape: (R03.1) encoder and decoder agree on the 7-byte big-endian header layout "
     "cmd:u8 | stream_id:u32 | len:u16, read from a slice of exactly HEADER_OVERHEAD_SIZE bytes; (R03.2) peek-then-consume: "
@@ -200,6 +203,32 @@ def r2_peek_then_consume(ctx):
                "the incomplete-%s exit does not return Ok(None)" % label)
 
 
+def r6_payload_follows_its_length(ctx):
+    """the encoder emits the payload whenever the length it has just written is non-zero: the only condition on appending the
+    data is the data's own emptiness (a frame *kind* is not a reason to drop a payload the header has announced)"""
+    enc = ctx.body("R03.6", ENC)
+    if enc is None:
+        return
+    cfg, conds, o = ctx.cfg(enc), ctx.conds(enc), ctx.origins(enc)
+    pl = [c for c in enc.calls() if (c.norm or "").split("::")[-1] == "put_u16"]
+    app = [c for c in enc.calls() if (c.norm or "").split("::")[-1] in ("extend_from_slice", "put_slice", "put") and len(c.args) > 1 and "data" in fmt(o.of_operand(c.args[1]))]
+    oks = [bi for kind, bi, si, rv in enc.defs().get(0, []) if kind == "assign" and rv["r"] == "aggregate" and rv["kind"].get("variant") == "Ok"]
+    if not pl or not app or not oks:
+        ctx.missing("R03.6", "length field write / payload append / Ok return in encode")
+        return
+    empty_t = []
+    for c in conds.all():
+        if c.kind == "bool" and is_call_term(c.term, "::is_empty") and "data" in fmt(c.term):
+            empty_t += c.succs_for(True)
+        t = c.term
+        if c.kind == "bool" and isinstance(t, tuple) and t and t[0] == "binop" and t[1] in ("Eq", "Ne", "Gt") and is_call_term(t[2], "::len") and "data" in fmt(t[2]) and const_value_(t[3]) == 0:
+            empty_t += c.succs_for(True) if t[1] == "Eq" else c.succs_for(False)
+    ok, p = cfg.must_pass(cfg.succ(pl[0].bb), oks, via_blocks=[c.bb for c in app] + empty_t)
+    ctx.ob("R03.6", "encode:payload-appended-unless-empty", ok, app[0].site, "from the length field every path to Ok appends item.data or has found it empty" if ok else
+           "the payload can be skipped although the length field announces it (the append is conditional on something other than the data being empty): the header declares N bytes, none follow, and the peer swallows "
+           "the next N bytes of the following frames", path=None if ok else render_path(enc, p))
+
+
 def r3_totality(ctx):
     dec = ctx.body("R03.3", DEC)
     if dec is not None:
@@ -318,3 +347,8 @@ def run(ctx):
     r3_totality(ctx)
     r4_encoder(ctx)
     r5_decoded_fields(ctx)
+    r6_payload_follows_its_length(ctx)
+    from . import C20 as _C20
+    _reach = _C20.input_reachable(ctx)
+    _C20.r12_subtractions(ctx, _reach)      # arithmetic on buffer sizes in the codec cannot underflow
+    _C20.r13_slice_indices(ctx, _reach)     # no slice of the receive buffer is taken before the bytes are known to be there (log previews included)
